@@ -145,6 +145,11 @@ def rule_X7(ctx, files=CODEC_FILES, conv_files=None):
     return res, nidx, proved
 
 
+def rule_X7_library(ctx, files=None):
+    """X7 as C13 runs it (indexes in the codecs, conversions in every library file); for selftest/run_rules.py."""
+    return rule_X7(ctx, CODEC_FILES, conv_files=('.cpp', '.hpp'))[0]
+
+
 # ------------------------------------------------------------------ IDX1: counter-fed index into a fixed local array
 def _local_array_size(f, base_id):
     n = f.nodes[f.strip_casts(base_id)]
